@@ -16,6 +16,9 @@ KNOWN_KINDS = ["Int","Float","Bool","None","Bytes","String","ByteArray","List","
  "FrozenSet","Mark","Global","Instance","Callable","Extension","Any"]
 KNOWN_MUTS = ["Bitflip","Boundary","Offbyone","Stringlen","Character","Memoindex","Typeconfusion"]
 
+TABLES_FILE = [None]
+
+
 class Refuse(Exception):
     pass
 
@@ -56,24 +59,56 @@ def extract(repo):
     ops = enum_variants(opc, "OpcodeKind")
     if ops != KNOWN_OPS:
         raise Refuse("OpcodeKind variants changed: %r" % (sorted(set(ops) ^ set(KNOWN_OPS)) or "order"))
-    m = re.search(r"pub fn as_u8\(self\) -> u8 \{\s*match self \{(.*?)\n        \}", opc, re.S)
-    if not m: raise Refuse("as_u8 not found")
-    arms = re.findall(r"OpcodeKind::(\w+)\s*=>\s*(0x[0-9a-fA-F]+|\d+)\s*,", strip_comments(m.group(1)))
-    if [a for a, _ in arms] != KNOWN_OPS: raise Refuse("as_u8 arms do not cover OpcodeKind in order")
-    R["as_u8"] = [(a, int(v, 0)) for a, v in arms]
-    m = re.search(r"pub static PICKLE_OPCODES[^=]*=\s*phf_map!\s*\{(.*?)\n\};", opc, re.S)
-    if not m: raise Refuse("PICKLE_OPCODES not found")
-    body = strip_comments(m.group(1))
-    tabs = re.findall(r"(\d+)_u8\s*=>\s*&\[(.*?)\]", body, re.S)
-    if [int(k) for k, _ in tabs] != [0,1,2,3,4,5]: raise Refuse("PICKLE_OPCODES keys are not 0..5")
-    R["tables"] = []
-    for k, t in tabs:
-        names = re.findall(r"OpcodeKind::(\w+)", t)
-        rest = re.sub(r"OpcodeKind::\w+", "", t)
-        if rest.replace(",", "").strip(): raise Refuse("unexpected tokens in table %s" % k)
-        for n in names:
-            if n not in KNOWN_OPS: raise Refuse("unknown opcode %s in table" % n)
-        R["tables"].append(names)
+    def from_source():
+        m = re.search(r"pub fn as_u8\(self\) -> u8 \{\s*match self \{(.*?)\n        \}", opc, re.S)
+        if not m: raise Refuse("as_u8 not found")
+        arms = re.findall(r"OpcodeKind::(\w+)\s*=>\s*(0x[0-9a-fA-F]+|\d+|b'(?:\\.|[^'\\])')\s*,", strip_comments(m.group(1)))
+        if [a for a, _ in arms] != KNOWN_OPS: raise Refuse("as_u8 arms do not cover OpcodeKind in order")
+        def lit(v):
+            if v.startswith("b'"):
+                body = v[2:-1]
+                esc = {"\\n": 10, "\\t": 9, "\\r": 13, "\\\\": 92, "\\'": 39, "\\0": 0}
+                return esc[body] if body in esc else ord(body)
+            return int(v, 0)
+        as_u8 = [(a, lit(v)) for a, v in arms]
+        m = re.search(r"pub static PICKLE_OPCODES[^=]*=\s*phf_map!\s*\{(.*?)\n\};", opc, re.S)
+        if not m: raise Refuse("PICKLE_OPCODES not found")
+        body = strip_comments(m.group(1))
+        tabs = re.findall(r"(\d+)_u8\s*=>\s*&\[(.*?)\]", body, re.S)
+        if [int(k) for k, _ in tabs] != [0,1,2,3,4,5]: raise Refuse("PICKLE_OPCODES keys are not 0..5")
+        tables = []
+        for k, t in tabs:
+            names = re.findall(r"OpcodeKind::(\w+)", t)
+            rest = re.sub(r"OpcodeKind::\w+", "", t)
+            if rest.replace(",", "").strip(): raise Refuse("unexpected tokens in table %s" % k)
+            for n in names:
+                if n not in KNOWN_OPS: raise Refuse("unknown opcode %s in table" % n)
+            tables.append(names)
+        return as_u8, tables
+    try:
+        R["as_u8"], R["tables"] = from_source()
+        R["tables_from"] = "source"
+    except Refuse as e:
+        # the source shape was not recognised (a refactoring of opcodes.rs): fall back to what the compiled code says
+        # (`pfv-harness tables`, i.e. OpcodeKind::as_u8 and PICKLE_OPCODES evaluated by the real code through the hooks)
+        if not TABLES_FILE[0] or not os.path.exists(TABLES_FILE[0]):
+            raise
+        codes, tabs = {}, {}
+        for l in open(TABLES_FILE[0]).read().split("\n"):
+            t = l.split(" ")
+            if t[0] == "opcode" and len(t) == 3:
+                codes[t[1]] = int(t[2], 16)
+            elif t[0] == "table" and len(t) == 3:
+                tabs[int(t[1])] = [int(t[2][i:i + 2], 16) for i in range(0, len(t[2]), 2)]
+        if sorted(codes) != sorted(KNOWN_OPS) or sorted(tabs) != [0, 1, 2, 3, 4, 5]:
+            raise Refuse("%s; and the compiled tables do not have the expected shape either" % e)
+        by_code = {v: k for k, v in codes.items()}
+        if len(by_code) != len(codes):
+            raise Refuse("%s; and as_u8 is not injective in the compiled code" % e)
+        R["as_u8"] = [(a, codes[a]) for a in KNOWN_OPS]
+        R["tables"] = [[by_code[b] for b in tabs[k]] for k in range(6)]
+        R["tables_from"] = "compiled code (source shape not recognised: %s)" % e
+        sys.stderr.write("translate: tables taken from the compiled code: %s\n" % e)
     stk = open(os.path.join(repo, "src/stack.rs")).read()
     kinds = enum_variants(stk, "StackObject")
     if kinds != KNOWN_KINDS: raise Refuse("StackObject variants changed: %r" % kinds)
@@ -264,7 +299,9 @@ def main():
     ap = argparse.ArgumentParser()
     ap.add_argument("--repo", default="/repo")
     ap.add_argument("--out", default="/verif/lean/PFV/Generated.lean")
+    ap.add_argument("--tables", default=None, help="output of `pfv-harness tables`, used when opcodes.rs is not recognised")
     a = ap.parse_args()
+    TABLES_FILE[0] = a.tables
     ap_report = os.path.join(os.path.dirname(os.path.abspath(a.out)), "..", ".lake", "translate_report.json")
     try:
         R = extract(a.repo)
